@@ -598,7 +598,11 @@ def main(tier):
         chk.function(S.SVC, 'VizierServicer.' + r.rpc)
         fr = verify.verify_function(chk, 'VizierServicer.' + r.rpc, r.entry, r.post, witness_terms=witness_terms, known=known,
                                     timeout_ms=20000 if tier == 'quick' else 60000, expect_paths=2)
-        for p in fr.paths:
-            inlined |= p.run.inlined
+        inlined |= fr.inlined
+    # SuggestTrials (shared contract, contracts/suggest.py): the C01 clauses and the loop/lemma obligations they rest on
+    from contracts import suggest
+    inlined |= suggest.run(chk, 'C01', tier)
+    from contracts import earlystop
+    inlined |= earlystop.run(chk, 'C01', tier)
     chk.extra['inlined_real_functions'] = sorted(inlined)
     return chk.finish(min_obligations=60)
